@@ -79,13 +79,19 @@ def fam_relay(w: World) -> None:
     max_batch = ch.choice([None, None, 1, 3], 'max_batch')
     flavour = ch.choice(['async', 'mixed', 'sync'], 'aio.flavour')
     n_posts = 1 + ch.draw(3, 'posts')
+    bp_prefix = ch.choice([None, None, '/mounted'], 'flask.blueprint_prefix')
     S.plan_pauses(w, {'async': True, 'middlewares': [], 'handlers': {}}, 5)
-    w.scenario = {'status_fn': status_fn, 'path': path, 'sub': sub, 'max_batch_size': max_batch, 'posts': []}
+    w.scenario = {'status_fn': status_fn, 'path': path, 'sub': sub, 'max_batch_size': max_batch, 'posts': [],
+                  'flask_blueprint_prefix': bp_prefix}
     hops: Dict[str, Any] = {}
     for name in ('aiohttp', 'flask', 'werkzeug'):
         kwargs = {'max_batch_size': max_batch}
-        hops[name] = H.AiohttpHop(w, path, sub, status_fn, kwargs, flavour) if name == 'aiohttp' \
-            else H.HOPS[name](w, path, sub, status_fn, kwargs)
+        if name == 'aiohttp':
+            hops[name] = H.AiohttpHop(w, path, sub, status_fn, kwargs, flavour)
+        elif name == 'flask':
+            hops[name] = H.FlaskHop(w, path, sub, status_fn, kwargs, blueprint_prefix=bp_prefix)
+        else:
+            hops[name] = H.HOPS[name](w, path, sub, status_fn, kwargs)
     for k in range(n_posts):
         ctype, hdr_class = _header(ch)
         body, body_kind, info = _body(ch)
